@@ -139,6 +139,9 @@ def make_jobs(ctx):
         j.min_canaries = 1
     jobs += j3
     jobs += expr_jobs(ctx, ["signed_infix", "shl", "shr_u", "shr_s"])
+    # the bulk-memory helpers of the runtime header: memmove semantics for overlapping ranges (memcpy on overlapping objects is undefined behaviour), bounds
+    from . import c05
+    jobs += [j for j in c05.make_jobs(ctx) if j.name in ("R.wasmMemoryCopy", "R.wasmMemoryFill", "R.load_data")]
     from ..elayer import ejob
     for nlen in (1, 2, 3):   # the same identifier text in declarations and uses, for every byte value of a name (else the generated C does not compile)
         jobs.append(ejob(ctx, "E.names_escape.len%d" % nlen, "e_names.c", "h_escape", ["c.c:wasmCWriteFileEscaped", "c.c:wasmCWriteStringEscaped"], defines=["NLEN=%d" % nlen],
